@@ -100,9 +100,7 @@ pub fn code_id(push_state: &mut PushState, _instruction_set: &InstructionCache) 
 /// or FALSE otherwise.
 pub fn code_eq(push_state: &mut PushState, _instruction_cache: &InstructionCache) {
     if let Some(pv) = push_state.code_stack.copy_vec(2) {
-        push_state
-            .bool_stack
-            .push(pv[0].to_string() == pv[1].to_string());
+        push_state.bool_stack.push(Item::equals(&pv[0], &pv[1]));
     }
 }
 
